@@ -14,6 +14,8 @@ use crate::symx_api::RunCfg;
 pub struct Item {
     pub pattern: String,
     pub gen: String,
+    /// explore this item with texts of N + n_extra bytes
+    pub n_extra: usize,
     /// second pattern for twin-program properties (C03 injection, C19 respelling, ...)
     pub variant: Option<String>,
     pub note: String,
@@ -21,7 +23,8 @@ pub struct Item {
 
 impl Item {
     pub fn new(p: &str, gen: &str) -> Item {
-        Item { pattern: p.to_string(), gen: gen.to_string(), variant: None, note: String::new() }
+        let n_extra = if gen == "compile-matrix" || gen == "witness" || gen == "alt-order" { 1 } else { 0 };
+        Item { pattern: p.to_string(), gen: gen.to_string(), n_extra, variant: None, note: String::new() }
     }
 }
 
@@ -309,7 +312,7 @@ impl<'a> Gen<'a> {
             self.cond(depth)
         } else if r < 93 && self.has(F_FLAGS) {
             let c = self.node(depth - 1);
-            let f = *self.rng.pick(&["(?s:", "(?m:", "(?i:", "(?x: ", "(?U:"]);
+            let f = *self.rng.pick(&["(?s:", "(?m:", "(?i:", "(?x: ", "(?U:", "(?-i:", "(?-s:", "(?-m:", "(?i-s:", "(?s-m:", "(?-U:", "(?U-i:", "(?:(?i)", "((?i)", "(?:(?s)", "((?m)"]);
             if f == "(?i:" && !self.has(F_CASE) && !self.has(F_FLAGS) {
                 return c;
             }
@@ -443,6 +446,20 @@ pub fn contexts(feats: u32) -> Vec<&'static str> {
         v.push("(H)?(?(1)a|b)");
         v.push("(?(H)a|b)");
         v.push("(?:(?(H)a|b))*");
+        // a branch with several ways to match, followed by more pattern
+        v.push("(?(a)H)b");
+        v.push("(?(a)|H)b");
+        v.push("(a)?b(?(1)c|H)b");
+        v.push("(?:(a)|b)(?(1)H|c)c");
+    }
+    if feats & F_ATOMIC != 0 {
+        // a capture written between two pending alternatives inside an atomic scope that is
+        // abandoned afterwards
+        v.push("(?>b?(H)c?)a|.*");
+        v.push("(?>b?(H)c?(?=))a|.*");
+        v.push("(?>b??(H)c*\\b)a|.{0,3}");
+        v.push("(?:(?>b?(H)c?(?=))a|.)*");
+        v.push("(?>(?:b|)(H)(?:c|)(?=))a|(?s:.)*");
     }
     if feats & F_KEEP != 0 {
         v.push("a\\KH");
@@ -458,6 +475,67 @@ pub fn fill(ctx: &str, filler: &str, filler_is_alt: bool) -> String {
     } else {
         ctx.replace("H", filler)
     }
+}
+
+/// Compile-decision matrix: the compiler's choices depend on (context that passes
+/// hard = false to its body) x (repeat lowering) x (hard element followed by an easy,
+/// variable-size tail).  Every combination is a corpus item.
+pub fn compile_matrix(full: bool) -> Vec<String> {
+    let ctxs: &[&str] = if full { &["(?>X)", "(?=X)a", "(?!X)a", "(X)", "X", "(?>X)b", "Xb", "(?:X|c)\\b"] } else { &["(?>X)", "(?=X)a", "(X)", "X", "(?>X)b", "Xb"] };
+    let quants: &[&str] = if full { &["{2}", "{1,2}", "{2,}", "*", "+", "?", "*?", "{2}?", "{1,2}?"] } else { &["{2}", "{1,2}", "*", "+", "?", "{2}?", "{1,2}?"] };
+    let hards: &[&str] = if full { &["(?=a)", "(?>a)", "\\b", "(?!b)", "(?<=a)", "(a)"] } else { &["(?=a)", "(?>a)", "\\b", "(?!b)", "(?<=a)"] };
+    let tails: &[&str] = if full { &["a?", "a*", "a*b?", "(?:a|ab)", "[ab]+?", "(?:ab|a)"] } else { &["a?", "a*b?", "(?:a|ab)", "(?:ab|a)"] };
+    let mut out = Vec::new();
+    for c in ctxs.iter() {
+        for q in quants.iter() {
+            for h in hards.iter() {
+                for t in tails.iter() {
+                    out.push(c.replace("X", &std::format!("(?:{}{}){}", h, t, q)));
+                }
+            }
+        }
+    }
+    // the same bodies without a quantifier, and with the hard element last
+    for c in ctxs.iter() {
+        for h in hards.iter() {
+            for t in tails.iter() {
+                out.push(c.replace("X", &std::format!("{}{}", h, t)));
+                out.push(c.replace("X", &std::format!("{}{}", t, h)));
+                out.push(c.replace("X", &std::format!("{}{}b", t, h)));
+            }
+        }
+    }
+    out
+}
+
+/// Alternations over words of different lengths in every order, followed by a
+/// continuation that can force the engine back into the alternation.
+pub fn alt_order(common_syntax: bool) -> Vec<String> {
+    let words = ["a", "ab", "abc", "b", ""];
+    let conts: &[&str] = if common_syntax { &["\\b", "\\Bb", "\\b.", "b\\b"] } else { &["b", "bc", "c", "\\b", "(?=)b", "(?=)bc", "\\1"] };
+    let mut out = Vec::new();
+    for (i, x) in words.iter().enumerate() {
+        for (j, y) in words.iter().enumerate() {
+            if i == j {
+                continue;
+            }
+            for k in conts.iter() {
+                out.push(std::format!("({}|{}){}", x, y, k));
+                if *k != "\\1" {
+                    out.push(std::format!("c(?:{}|{}){}", x, y, k));
+                }
+            }
+            for (l, z) in words.iter().enumerate() {
+                if l == i || l == j || l > 2 {
+                    continue;
+                }
+                for k in conts.iter().take(3) {
+                    out.push(std::format!("({}|{}|{}){}", x, y, z, k));
+                }
+            }
+        }
+    }
+    out
 }
 
 // ---------------------------------------------------------------------------
